@@ -29,6 +29,7 @@ func c15(c *eng.Ctx, r *eng.Report) {
 		"R15.10 a panic raised while handling one message ends that message, not the party: the deferred recover() of baseParty.Update neither sends on the party's Err channel nor calls anything that does (ID.Serialize panics on an over-long signer id, which the wire decoder lets through); " +
 		"R15.12 the key a share is verified under is the sender's key in this block's group: every key GetMemberSignPubKey(group, member) returns comes from GetMemberSignPK(member) on the record GetJoinedGroupInfo(group) returned — not from a store keyed by the member alone (a miner sits in several groups with a different share key in each); " +
 		"R15.14 the share sets are fed by the checked path only: outside the generator's own methods the only function that calls AddWitnessSign/addWitnessForce is (*round1).Update, whose two call sites R15.1 decides — a second feeder (a batch path over parked messages that verifies the recovered result instead of each piece) lets one bad piece into the set, and what it leaves behind blocks the honest shares; " +
+		"R15.17 an id taken from a message can be written back: ID.Serialize panics for a value wider than ID_LENGTH bytes, so (*ID).Deserialize — the only way bytes from the wire become an ID — refuses input longer than ID_LENGTH before it stores it; otherwise one verify message with a 33-byte signer id, parked during the round-0 wait, panics inside round1.Start's replay loop (the first thing round1.Update does is log the signer's hex id), the party's recover swallows it, and the honest pieces the loop had not reached yet are never replayed (finding F29); " +
 		"R15.16 the bytes a share is verified over are the data hash and nothing else of the message: in SignInfo.VerifySign the message handed to groupsig.VerifySig is computed from the field dataHash alone — round 1 compares dataHash with the block's hash, so if another sender-filled field (a version number) selects what was signed, a share over other bytes passes as a share over this block's hash and poisons the recovery set; " +
 		"R15.15 a party parks every early message: baseParty.StoreMessage reaches its futureMessages update on every path (no return precedes it) — a quota counted before any signature is checked is filled by one faulty member's forged messages and the honest shares that arrive afterwards are dropped; " +
 		"R15.13 a verify message is identified by the digest of its whole wire form: the Id that UnMarshalConsensusVerifyMessage assigns — the key of CanAccept, futureMessages and processed — is computed by a hash over the received bytes, not from fields the sender fills in (a forged piece naming another member would otherwise occupy that member's id and the genuine share be dropped as a duplicate); " +
@@ -52,6 +53,7 @@ func c15(c *eng.Ctx, r *eng.Report) {
 	c15OnlyCheckedPathFeedsShares(c, r)
 	c15PartyParksEverything(c, r)
 	c15VerifiedBytesAreTheHash(c, r)
+	c15DecodedIdsSerialise(c, r)
 }
 
 // c15Parking: a verify message that arrives before its party exists is parked
@@ -856,4 +858,65 @@ func c15VerifiedBytesAreTheHash(c *eng.Ctx, r *eng.Report) {
 	if n == 0 {
 		r.Fail(rule, "VerifySign:bytes-are-the-hash", c.Pos(fn.Pos()), "SignInfo.VerifySign no longer calls groupsig.VerifySig: the rule has lost its anchor")
 	}
+}
+
+// c15DecodedIdsSerialise: see R15.17.
+func c15DecodedIdsSerialise(c *eng.Ctx, r *eng.Report) {
+	const rule = "R15.17"
+	r.Min(rule, 1)
+	de := c.Func("consensus/groupsig", "(*ID).Deserialize")
+	ser := c.Func("consensus/groupsig", "(ID).Serialize")
+	if ser == nil {
+		ser = c.Func("consensus/groupsig", "ID.Serialize")
+	}
+	if !r.Anchor(de != nil && ser != nil && len(de.Params) == 2, rule, "groupsig.(*ID).Deserialize / ID.Serialize") {
+		return
+	}
+	// does Serialize still panic on an over-long value?
+	panics := false
+	for _, b := range ser.Blocks {
+		for _, in := range b.Instrs {
+			if _, ok := in.(*ssa.Panic); ok {
+				panics = true
+			}
+		}
+	}
+	if !panics {
+		r.Pass(rule, "decoded-id:serialisable", c.Pos(ser.Pos()), "ID.Serialize no longer panics; nothing to bound")
+		return
+	}
+	n, bad := 0, ""
+	for _, s := range eng.Sites(de) {
+		if !strings.HasSuffix(s.Name(), "BnInt).deserialize") {
+			continue
+		}
+		n++
+		bounded := false
+		for _, cd := range eng.CondsAt(s.Instr) {
+			m, isM := cd.Cmp()
+			if !isM {
+				continue
+			}
+			x, y, op := m.X, m.Y, m.Op
+			if strings.HasPrefix(eng.Desc(y), "builtin:len(") {
+				x, y = y, x
+				switch op {
+				case token.GEQ:
+					op = token.LEQ
+				case token.GTR:
+					op = token.LSS
+				}
+			}
+			if !strings.HasPrefix(eng.Desc(x), "builtin:len(") {
+				continue
+			}
+			if k, isK := eng.ConstInt(y); isK && ((op == token.LEQ && k <= 32) || (op == token.LSS && k <= 33) || (op == token.EQL && k <= 32)) {
+				bounded = true
+			}
+		}
+		if !bounded {
+			bad = c.Pos(s.Pos())
+		}
+	}
+	r.Check(bad == "" && n >= 1, rule, "decoded-id:serialisable", c.Pos(de.Pos()), "Deserialize stores at most ID_LENGTH bytes", "(*ID).Deserialize stores input of any length (at "+bad+") while ID.Serialize panics for a value wider than ID_LENGTH: a verify message whose signer id is 33 bytes long decodes, and the first GetHexString on it — the debug line at the top of round1.Update — panics. Parked during the round-0 wait it blows up round1.Start's replay loop; baseParty.Update recovers, the loop is gone, and the honest pieces it had not reached stay filed for ever (a repeated copy is refused as already filed): with threshold honest pieces parked, the block fails to finalise in about half the map orders")
 }
